@@ -197,7 +197,11 @@ FUNCS = [
     ("expr", "/deprecated", "==", True),
     ("expr", "/deprecated", "!=", True),
     ("expr", "/tags/0", "==", "t1"),
+    ("expr", "/tags/1", "==", "t2"),
     ("expr", "/tags/-1", "!=", "t2"),
+    ("expr", "/tags/-1", "==", "t2"),
+    ("expr", "/tags/01", "==", "t2"),
+    ("expr", "/tags/+1", "==", "t2"),
     ("expr", "/operationId", "==", "opA"),
     ("expr", "/responses/200/description", "==", "ok"),
     ("expr", "/tags", "==", ["t1", "t2"]),
@@ -497,10 +501,10 @@ def _pointer(doc, pointer):
                 return False, None
             cur = cur[tok]
         elif isinstance(cur, list):
-            try:
-                cur = cur[int(tok)]
-            except (ValueError, IndexError):
+            # RFC 6901: an array index is "0" or ASCII digits without a leading zero (what a JSON pointer denotes)
+            if re.fullmatch(r"0|[1-9][0-9]*", tok, flags=re.ASCII) is None or int(tok) >= len(cur):
                 return False, None
+            cur = cur[int(tok)]
         else:
             return False, None
     return True, cur
@@ -880,6 +884,8 @@ ENGINE_CALLS = [
     [{"kind": "include", "method": ["post", "GET"]}],
     [{"kind": "exclude", "func": ["expr", "/deprecated", "==", True]}],
     [{"kind": "exclude", "func": ["expr", "/tags/-1", "==", "danger"]}],
+    [{"kind": "exclude", "func": ["expr", "/tags/1", "==", "danger"]}],
+    [{"kind": "exclude", "func": ["expr", "/tags/01", "==", "danger"]}],
     [{"kind": "include", "func": ["expr", "/parameters/0/name", "==", "id"]}],
     [{"kind": "include", "name_regex": ["suffix", "}"]}],
     [{"kind": "include", "operation_id": ["createUser", "getUser"]}],
